@@ -125,6 +125,7 @@ func cmdCheck(args []string) {
 		fmt.Printf("VIOLATION property=%s replay=%s no-failing-input-found\n", *prop, writeReplay(*vdir, *prop, "load-error", map[string]any{"error": err.Error()}))
 		os.Exit(1)
 	}
+	p.curProp = *prop
 	cc := &CheckCtx{P: p, Prop: *prop, Tier: *tier, Timeout: *timeout, Repo: *repo, VerifDir: *vdir, OutDir: *outDir}
 	if cc.OutDir == "" {
 		cc.OutDir = *vdir
